@@ -139,6 +139,23 @@ def run(ctx):
                             fail('disabled_terrapin_alg_recommended', dict(inp, name=n_), key, 'never recommended for addition')
             lines.append(rc.report_line(peer, client, imp['banner']))
             expect.append((imp, inp))
+    # client audits whose two directions differ (D28: detection reads the client-to-server lists, the report shows the server-to-client ones): the property
+    # does not say which direction counts, so there is no oracle clause here — the model (which mirrors the code) and the code are compared (seed C04-9)
+    for k in range(ctx.scale(60, 600)):
+        kex = ['curve25519-sha256'] + ([pg.STRICT_C] if k % 3 == 0 else []) + ([pg.STRICT_S] if k % 5 == 0 else [])
+        def side():
+            e = r.sample(chachas, r.randint(0, min(1, len(chachas)))) + r.sample(cbcs, r.randint(0, 2)) + r.sample(plain_enc, r.randint(1, 2))
+            m_ = r.sample(etms, r.randint(0, 2)) + r.sample(plain_mac, r.randint(1, 2))
+            r.shuffle(e)
+            r.shuffle(m_)
+            return e, m_
+        (e_s, m_s), (e_c, m_c) = side(), side()
+        peer = rc.mk_peer(kex, ['ssh-ed25519'], e_s, m_s, enc_c=e_c, mac_c=m_c)
+        client = k % 4 != 3
+        imp = rc.impl_report(peer, client=client)
+        cov.add(json.dumps([kex, e_s, m_s, e_c, m_c, client]), True, tags=['directions-differ', 'client' if client else 'server'])
+        lines.append(rc.report_line(peer, client, imp['banner']))
+        expect.append((imp, {'peer': peer, 'client': client}))
     model = ctx.driver(lines) if ctx.driver_ok else []
     for line, m, (imp, inp) in zip(lines, model, expect):
         d = rc.compare(rc.canon_model(m), imp) if 'ok' in m else ['model error']
